@@ -30,7 +30,11 @@ import GtirbVerif.Lemmas.StoreSpec
   deletion that starts there; registration id), pairwise non-overlapping; it refuses a
   request list exactly when two requests overlap in that order; and with distinct registration
   ids neither what the store hands out (as a set) nor what `resolve_offsets` answers depends on the
-  order of the registrations (`store_any_registration_order`, `resolve_offsets_any_order`).
+  order of the registrations (`store_any_registration_order`, `resolve_offsets_any_order`); the
+  offset the model resolves a position to is the one the specification prescribes, given that the
+  instruction sizes it is handed are what `_nonterminator_instructions` is defined to keep
+  (`store_offset_is_the_specifications`; the harness evaluates that premise on the real helper for
+  every block it sees).
 -/
 namespace GtirbVerif.Props.C07
 open GtirbVerif GtirbVerif.IR GtirbVerif.Listing GtirbVerif.Scopes
